@@ -84,6 +84,11 @@ impl Blob {
         writer: &mut PagedWriter<T>,
         reader: &mut dyn Read,
     ) -> Result<Self> {
+        // An earlier section that failed part way can leave the writer on an unaligned offset
+        writer
+            .align()
+            .write_err("Failed to align writer on next 4-byte offset before writing blob section")?;
+
         // Write temporary section header with invalid zero length
         let start_offset = writer.physical_position()?;
         let mut section_header = BlobSectionHeader { section_length: 0 };
